@@ -1877,6 +1877,9 @@ TABLE["bitcoin::Sequence::is_height_locked"] = _lock_pred(
 TABLE["bitcoin::Sequence::is_time_locked"] = _lock_pred(
     lambda n: n & (1 << 31) == 0 and n & (1 << 22) != 0, "is_time_locked")
 CONSTS["bitcoin::Sequence::ZERO"] = 0
+CONSTS["bitcoin::Sequence::MAX"] = 0xffffffff
+CONSTS["bitcoin::Sequence::ENABLE_LOCKTIME_NO_RBF"] = 0xfffffffe
+CONSTS["bitcoin::Sequence::ENABLE_RBF_NO_LOCKTIME"] = 0xfffffffd
 
 
 @reg("iter::tree::TreeLike::n_children")
